@@ -24,8 +24,15 @@ func c09Deliver(c *sim.Ctx, frame []byte) Outcome {
 	return ReadOne(link.NewReader(c, frame, link.Mode{}))
 }
 
-func fiveByte(v uint32) []byte {
-	return []byte{byte(v&0x7f) | 0x80, byte((v>>7)&0x7f) | 0x80, byte((v>>14)&0x7f) | 0x80, byte((v>>21)&0x7f) | 0x80, 0x00}
+// fiveByte returns over-long forms of v whose first four bytes carry the
+// continuation bit: a fifth byte of 0x00 / 0x01 / 0x7f, and a six-byte form.
+func fiveByte(v uint32) [][]byte {
+	head := []byte{byte(v&0x7f) | 0x80, byte((v>>7)&0x7f) | 0x80, byte((v>>14)&0x7f) | 0x80, byte((v>>21)&0x7f) | 0x80}
+	var out [][]byte
+	for _, tail := range [][]byte{{0x00}, {0x01}, {0x7f}, {0x80, 0x00}} {
+		out = append(out, append(append([]byte{}, head...), tail...))
+	}
+	return out
 }
 
 func runC09(c *sim.Ctx) *sim.Violation {
@@ -114,17 +121,19 @@ func runC09(c *sim.Ctx) *sim.Violation {
 		if f.Kind != "varint" && f.Kind != "rl" {
 			continue
 		}
-		v, _, _ := ref.ParseVarint(frame[f.Start:f.End])
-		d := append(append(append([]byte{}, frame[:f.Start]...), fiveByte(v)...), frame[f.End:]...)
-		if f.Kind != "rl" {
-			// make the header truthful for the longer body
-			body := d[h:]
-			d = append(ref.AppendVarint([]byte{frame[0]}, uint32(len(body))), body...)
-		}
-		n++
-		c.Count("fault.b.five-byte-varint(" + f.Name + ")")
-		if v := judge("b", f.Name, d, fmt.Sprintf("(b) %s at offset %d replaced by a 5-byte variable byte integer", f.Name, f.Start)); v != nil {
-			return v
+		val, _, _ := ref.ParseVarint(frame[f.Start:f.End])
+		for _, long := range fiveByte(val) {
+			d := append(append(append([]byte{}, frame[:f.Start]...), long...), frame[f.End:]...)
+			if f.Kind != "rl" {
+				// make the header truthful for the longer body
+				body := d[h:]
+				d = append(ref.AppendVarint([]byte{frame[0]}, uint32(len(body))), body...)
+			}
+			n++
+			c.Count("fault.b.five-byte-varint(" + f.Name + ")")
+			if v := judge("b", f.Name, d, fmt.Sprintf("(b) %s at offset %d replaced by the over-long variable byte integer %x", f.Name, f.Start, long)); v != nil {
+				return v
+			}
 		}
 	}
 	// (c) boolean properties with values 2..255
